@@ -226,8 +226,8 @@ PROPERTIES = {
         assumptions=['producer steps commute to the left of consumer steps (the producer reads no shared state; get() '
                      'blocks until the next element of the same FIFO sequence is there), so running the producer to '
                      'completion inside the run_in_executor / submit stub is representative of every interleaving',
-                     'FIFO of call_soon_threadsafe callbacks per thread and of queue.Queue; the sentinel object is '
-                     'private (no source yields it)',
+                     'FIFO of call_soon_threadsafe callbacks per thread and of queue.Queue; no source yields the end '
+                     'marker (backed by the obligation that _DONE is defined as a fresh object())',
                      'ThreadPoolExecutor.__exit__ = shutdown(wait=True)'],
         not_decided=['"does not block the event loop" as responsiveness: only WHERE the blocking statement runs is '
                      'proved; the heartbeat measurement is the bounded stand-in\'s'],
